@@ -4,7 +4,7 @@ VIEW view
 CONSTANTS
   PNorm <- AlphaWild
   PLit <- LitCore
-  PMacro <- NoChars
+  PMacro <- ShellMacros
   PLen = 3
   SAlpha <- StrSmall
   SLen = 3
